@@ -16,6 +16,7 @@ RULE = ("cloud cases: 2-200 atoms of elements C,N,O,S,H,F,Cl,P,Zn,Se,Si,Sr,Br,Na
         "non-trivial when the reference contains >= 1 bond whose atoms lie in different cells.")
 EXPLANATION = "26/26 neighbour directions must be observed with reference bonds for a held verdict"
 RULE = RULE + ' Round 8 (written cases): a cloud written as ATOM/HETATM records in the name spellings of real files, read back through get_atom_lines_from_pdb with and without keep_protons; the bonds must be those of the rule for the elements written.'
+RULE = RULE + ' Round 12: after whole runs (several models, tight metal sites) the heavy-atom bonds of every conformation are held against the pairwise rule and S-S flags are checked.'
 ASSUMPTIONS = ["pairs with |d^2 - t^2| < 1e-9 are ties and not judged, unless all six coordinates are multiples "
                "of 0.125 A: the floating-point distance test is then exact and the strict inequality of the "
                "criterion decides (no bond at exactly 1.5 / 2.0 / 2.5 A)",
